@@ -7,7 +7,7 @@ CONSTANTS
   LenHdr = 4
   Finding9 = FALSE
   MaxFields = 3
-  MaxToks = 3
+  MaxToks = 2
   MaxCnt = 0
   NCases = 0
   Tier = "thorough"
